@@ -20,6 +20,25 @@ theorem waveTo_ne_zero {K : Type} [Field K] [CharZero K] : ∀ a b : WUnit, (wav
 theorem waveTo_pos : ∀ a b : WUnit, (0 : ℚ) < waveTo a b := by
   intro a b; cases a <;> cases b <;> norm_num [waveTo]
 
+/-- closed forms of the model's `toWave`/`toFlux` (defined through the generated per-sample steps `Gen.toStep*`): these bridge
+lemmas stop checking when `Spectrum.to` changes which quantity is multiplied or divided by which factor -/
+theorem toWave_eq (u : WUnit) (s : USpec) : toWave u s =
+    (match s.vu with
+     | some f => { wave := s.wave.map (· * (waveTo s.wu u : ℚ)), value := s.value.map (· / (waveTo s.wu u : ℚ)), wu := u, vu := some f }
+     | none => { wave := s.wave.map (· * (waveTo s.wu u : ℚ)), value := s.value, wu := u, vu := none }) := by
+  have hid : (Gen.toStepValueUnitless : ℚ → ℚ) = id := by funext v; rfl
+  unfold toWave
+  cases s.vu <;> simp [Gen.toStepWaveDensity, Gen.toStepValueDensity, Gen.toStepWaveUnitless, hid]
+
+theorem toFlux_eq (g : FUnit) (H C : ℚ) (s : USpec) : toFlux g H C s =
+    (match s.vu with
+     | none => none
+     | some f => some { wave := s.wave,
+                        value := List.zipWith (fun v w => fluxTo f g (v / (waveTo s.wu .m : ℚ)) (w * (waveTo s.wu .m : ℚ)) H C / (waveTo .m s.wu : ℚ)) s.value s.wave,
+                        wu := s.wu, vu := some g }) := by
+  unfold toFlux
+  cases s.vu <;> simp [Gen.toStepFlux]
+
 theorem trapz_nil_left (v : List ℚ) : trapz [] v = 0 := by simp [trapz]
 theorem trapz_single_left (x : ℚ) (v : List ℚ) : trapz [x] v = 0 := by simp [trapz]
 
